@@ -395,6 +395,7 @@ def run(args):
         cases.append((args.seed, i, rng.choice(modes), rng.random() < 0.7, (rng.choice([20, 60]) if rng.random() < 0.02 else rng.choice([0, 1, 2, 3, 4, 6])),
                       rng.choice([1, 2, 3, 5])))
         i += 1
+    cases = core.replay_cases(args, cases)
     harness_fail = 0
     inv_evals = 0
 
@@ -432,6 +433,8 @@ def run(args):
         for c, r in zip(b, results):
             handle(r, c)
     wcases = [(args.seed, k) for k in range(n // 4)]
+    if args.replay:
+        wcases = []
     wb = [wcases[k:k + 200] for k in range(0, len(wcases), 200)]
     for _, b, results in core.forkmap(lambda bb: [wrap_pair_case(c) for c in bb], wb, isolated=False):
         if isinstance(results, dict):
